@@ -59,4 +59,6 @@ def compact(events, ifi="vf0"):
             out.append({"ev": ev, "res": e["res"], "t": t})
         elif ev in ("leak", "panic"):
             out.append({"ev": ev, "t": 0})
+        elif ev == "end":
+            pass
     return out
